@@ -125,9 +125,13 @@ def theorem_names(prop_file):
     return re.findall(r"^\s*(?:Theorem|Lemma|Corollary)\s+([A-Za-z0-9_']+)", txt, re.M)
 
 
-def print_assumptions(module, names):
+def print_assumptions_raw(import_line, names):
+    return print_assumptions(None, names, import_line=import_line)
+
+
+def print_assumptions(module, names, import_line=None):
     """Returns dict name -> list of axiom lines ([] = closed)."""
-    src = "From SF Require Import %s.\n" % module
+    src = import_line + "\n" if import_line else "From SF Require Import %s.\n" % module
     for n in names:
         src += 'Print Assumptions %s.\n' % n
     out = run_v(src)
